@@ -222,6 +222,59 @@ def live_negotiations(loop, transfer):
 # environment fakes
 # ----------------------------------------------------------------------------------------------
 
+class Latency:
+    """every awaitable of the environment fakes (file system, file handle, shares, network, file
+    connection) first awaits `LAT.wait(what)`.  By default that is instant; a harness may install a
+    hook that suspends (enumerated: instant / slow), so that a change which puts an environment call
+    into a place where it opens a scheduling window is explored with that window open."""
+    hook = None
+
+    async def wait(self, what):
+        if self.hook is not None:
+            await self.hook(what)
+
+
+LAT = Latency()
+
+
+class _FakeOSPath:
+    async def getsize(self, p):
+        await LAT.wait('fs.path.getsize')
+        return FakeFS.filesize
+
+    async def exists(self, p):
+        await LAT.wait('fs.path.exists')
+        return True
+
+    async def isfile(self, p):
+        await LAT.wait('fs.path.isfile')
+        return True
+
+    async def isdir(self, p):
+        await LAT.wait('fs.path.isdir')
+        return False
+
+    async def getmtime(self, p):
+        await LAT.wait('fs.path.getmtime')
+        return 0.0
+
+
+class FakeFS:
+    """`asyncos` (aiofiles.os) inside aioslsk.transfer.manager: every file exists, is `filesize` bytes
+    long, every operation succeeds - after LAT.wait(), i.e. possibly after a suspension"""
+    filesize = 3
+    path = _FakeOSPath()
+
+    def __getattr__(self, name):
+        if name.startswith('__'):
+            raise AttributeError(name)
+
+        async def op(*a, **kw):
+            await LAT.wait('fs.' + name)
+            return None
+        return op
+
+
 class FakeFileConnection:
     """file (F) connection handed out by FakeNetwork.create_peer_connection: the ticket write and
     the offset read succeed, send_file blocks until the harness releases it (result: all bytes
@@ -234,10 +287,12 @@ class FakeFileConnection:
         self.transfer = None
 
     async def send_message(self, data):
+        await LAT.wait('file_connection.send_message')
         self.net.file_writes.append({'at': self.net.loop.time(), 'username': self.username, 'data': data,
                                      'task': asyncio.current_task()})
 
     async def receive_transfer_offset(self):
+        await LAT.wait('file_connection.receive_transfer_offset')
         return 0
 
     def set_connection_state(self, state):
@@ -277,6 +332,7 @@ class FakeNetwork:
         rec = {'at': self.loop.time(), 'username': username, 'messages': messages, 'status': 'pending', 'done_at': None,
                'task': asyncio.current_task()}
         self.attempts.append(rec)
+        await LAT.wait('network.send_peer_messages')
         kind, delay = self.policy('send', username, messages)
         try:
             await asyncio.sleep(delay)
@@ -299,6 +355,7 @@ class FakeNetwork:
     async def create_peer_connection(self, username, typ, **kw):
         rec = {'at': self.loop.time(), 'username': username, 'status': 'pending', 'task': asyncio.current_task()}
         self.connects.append(rec)
+        await LAT.wait('network.create_peer_connection')
         kind, delay = self.policy('connect', username, typ)
         try:
             await asyncio.sleep(delay)
@@ -347,30 +404,43 @@ class FakeShares:
         self.filesize = filesize
 
     async def get_shared_item(self, remote_path, username=None):
+        await LAT.wait('shares.get_shared_item')
         return _SharedItem(remote_path)
 
     async def find_shared_item(self, remote_path, username=None):
+        await LAT.wait('shares.find_shared_item')
         return _SharedItem(remote_path)
 
     def find_shared_item_cache(self, remote_path, username=None):
         return _SharedItem(remote_path)
 
     async def get_filesize(self, item):
+        await LAT.wait('shares.get_filesize')
         return self.filesize
 
     def calculate_download_path(self, remote_path):
         return '/nonexistent/verif/dl', remote_path.replace('\\', '/').split('/')[-1]
 
     async def create_directory(self, path):
+        await LAT.wait('shares.create_directory')
         return None
 
 
 class _FakeHandle:
     async def seek(self, n):
+        await LAT.wait('file.seek')
         return n
 
+    async def read(self, n=-1):
+        await LAT.wait('file.read')
+        return b''
+
     async def __aenter__(self):
+        await LAT.wait('file.open')
         return self
+
+    def __await__(self):
+        return self.__aenter__().__await__()
 
     async def __aexit__(self, *a):
         return False
@@ -379,21 +449,26 @@ class _FakeHandle:
 @contextlib.contextmanager
 def env(loop, symbolic=False):
     """clock of aioslsk.transfer.manager / .model -> the loop's virtual clock;
-    aiofiles.open (upload source file) -> an in-memory handle; while exploring, `list` inside
-    aioslsk.transfer.manager -> SymList (merges the outcomes of a symbolic slice bound)"""
+    aiofiles.open (upload source file) -> an in-memory handle; asyncos (aiofiles.os) inside
+    aioslsk.transfer.manager -> FakeFS; while exploring, `list` inside aioslsk.transfer.manager ->
+    SymList (merges the outcomes of a symbolic slice bound).  The latency hook is reset."""
     clock = types.SimpleNamespace(monotonic=loop.time, time=loop.time)
     saved = [(tm.__dict__, 'time', tm.__dict__.get('time', _MISSING)),
              (tmodel.__dict__, 'time', tmodel.__dict__.get('time', _MISSING)),
              (tm.__dict__, 'aiofiles', tm.__dict__.get('aiofiles', _MISSING)),
+             (tm.__dict__, 'asyncos', tm.__dict__.get('asyncos', _MISSING)),
              (tm.__dict__, 'list', tm.__dict__.get('list', _MISSING))]
     tm.__dict__['time'] = clock
     tmodel.__dict__['time'] = clock
     tm.__dict__['aiofiles'] = types.SimpleNamespace(open=lambda *a, **kw: _FakeHandle())
+    tm.__dict__['asyncos'] = FakeFS()
+    LAT.hook = None
     if symbolic:
         tm.__dict__['list'] = SymList
     try:
         yield
     finally:
+        LAT.hook = None
         for d, k, v in saved:
             if v is _MISSING:
                 d.pop(k, None)
@@ -423,6 +498,7 @@ def build_world(loop, policy=None, filesize=3):
     w.bus = EventBus()
     w.net = FakeNetwork(loop, policy, filesize)
     w.shares = FakeShares(filesize)
+    FakeFS.filesize = filesize
     w.um = UserManager(w.settings, w.bus, w.net)
     # user tracking (AddUser / RemoveUser traffic) is C15's subject; here it is a no-op
     w.um.track_user = _noop_tracking
